@@ -659,13 +659,17 @@ pub fn inflight_round(r: &mut Report, prop: &str, judge_refusals: bool, secrets:
     let mut slows: Vec<Slow> = Vec::new();
     for i in 0..n_slow {
         let key = if contended { "slow-contended".to_owned() } else { format!("slow-{i}") };
-        let len = if g.chance(1, 5) { 100_000 + g.usize_below(400_000) } else { 1 + g.usize_below(40_000) };
+        // (with many other writes: the upload that stays open through all of them is long and gets a frame - larger than
+        // the backend's write buffer - every third step, so that it keeps writing while the others come and go)
+        let spanning = big_m && i == 0;
+        let len = if spanning { (m / 3 + 3) * (9000 + g.usize_below(3000)) } else if g.chance(1, 5) { 100_000 + g.usize_below(400_000) } else { 1 + g.usize_below(40_000) };
         let mut content = vec![b'S' + i as u8; len];
         let tag = (round * 16 + i as u64).to_be_bytes();
         let n = tag.len().min(len);
         content[..n].copy_from_slice(&tag[..n]);
-        let n_frames = (2 + g.usize_below(5)).min(len.max(1));
+        let n_frames = if spanning { m / 3 + 3 } else { (2 + g.usize_below(5)).min(len.max(1)) };
         let fate = match g.below(20) {
+            _ if spanning => Fate::Complete,
             0..=11 => Fate::Complete,
             12..=14 => Fate::TransportError(1 + g.usize_below(n_frames.max(2) - 1)),
             15..=17 => Fate::Dropped,
@@ -794,6 +798,17 @@ pub fn inflight_round(r: &mut Report, prop: &str, judge_refusals: bool, secrets:
                 }
             };
             *fast_kinds.entry(kind).or_insert(0) += 1;
+            // what the key holds at the end of its current content's life: still what its last acknowledged write stored?
+            // (an open upload that scribbles over somebody else's file shows here, before the evidence is replaced)
+            {
+                let g_req = RawRequest::new("GET", &format!("/{BUCKET}/{key}")).header("host", "h").build().expect("buildable");
+                let got = serve_one(&svc, g_req, 0).await.response().filter(|x| x.status == 200).map(RawResponse::body);
+                let want = model.get(&key).cloned().flatten();
+                if got != want {
+                    trouble = Some(format!("VIOLATION:acknowledged-content-changed:before write {step} key {key} held {} instead of {}", got.as_ref().map_or("nothing".into(), |b| format!("{} bytes, head {}", b.len(), show_bytes(&b[..b.len().min(12)]))), want.as_ref().map_or("nothing".into(), |b| format!("{} bytes, head {}", b.len(), show_bytes(&b[..b.len().min(12)])))));
+                    return;
+                }
+            }
             let Some(hreq) = req.build() else { continue };
             let out = serve_one(&svc, hreq, 0).await;
             let st = out.response().map_or(0, |x| x.status);
